@@ -111,6 +111,8 @@ EXPECTED_PROBES = [
     "probe.store_orset_add_wins_over_concurrent_remove", "probe.lww_rewrite_same_value_newer_timestamp",
     "probe.store_settle_run_converged", "probe.store_symmetric_value_tie",
     "probe.store_asymmetric_peers_settle_converged", "probe.store_push_from_non_peer_merged",
+    "probe.store_kept_handle_written_after_gossip_merge", "probe.lww_none_or_falsy_value_written",
+    "probe.orset_falsy_elements",
     "probe.twin_snapshot_caught_up_with_newer_state", "probe.twin_stale_snapshot_merged_into_live",
     "probe.twin_snapshot_promoted", "probe.twin_restarted_replica_relearns_own_updates",
     "probe.twin_update_skipped_while_recovering", "probe.reload_then_local_update",
@@ -196,7 +198,7 @@ def gen_crdt(rng):
           "faults": _gen_faults(rng, n, horizon), "clock_models": _gen_clock_models(rng, n)}
     if kind == "orset":
         variant = rng.choice(["full", "full", "full", "full", "full", "add-only", "private-remove"])
-        sc["elem"] = rng.choice(["str", "str", "int", "mixed"])
+        sc["elem"] = rng.choice(["str", "str", "int", "mixed", "falsy"])
     if kind == "lww":
         variant = rng.choice(["hlc", "manual", "manual"])
         sc["lww_values"] = rng.choice(["unique", "repeat", "repeat"])
@@ -226,7 +228,7 @@ def gen_crdt(rng):
         elif kind == "pncounter":
             ops.append({"t": t, "node": node, "kind": rng.choice(["inc", "dec"]), "n": rng.choice([1, 1, 2, 5, 100])})
         elif kind == "lww":
-            op = {"t": t, "node": node, "kind": "set", "val": rng.choice(["a", "b", "c"])}
+            op = {"t": t, "node": node, "kind": "set", "val": rng.choice(LWW_VALUES)}
             if variant == "manual":
                 p, lg = rng.randrange(0, 4), rng.randrange(0, 3)
                 if (node, p, lg) in used_ts:
@@ -266,7 +268,8 @@ def gen_store(rng):
         net = _gen_net(rng)
     iv = rng.choice([0.05, 0.1])
     sc = {"klass": "store", "crdt": kind, "variant": variant, "n_nodes": n, "seed": rng.getrandbits(48),
-          "elem": rng.choice(["str", "int"]) if kind == "orset" else "str",
+          "elem": rng.choice(["str", "int", "falsy-store"]) if kind == "orset" else "str",
+          "handles": rng.random() < 0.35,
           "net": net, "clock_models": _gen_clock_models(rng, n),
           "keys": keys, "precreate": rng.random() < 0.5, "settle": settle,
           "lww_values": rng.choice(["unique", "repeat"]),
@@ -321,7 +324,7 @@ def gen_store(rng):
             elif kind == "pncounter":
                 op.update(kind=rng.choice(["inc", "dec"]), n=rng.choice([1, 2, 5]))
             elif kind == "lww":
-                op.update(kind="set", val=rng.choice(["a", "b", "c"]))
+                op.update(kind="set", val=rng.choice(LWW_VALUES))
             else:
                 op.update(kind="add" if variant == "add-only" else rng.choice(["add", "add", "remove", "remove"]),
                           x=rng.randrange(rng.choice([2, 3])))
@@ -723,10 +726,18 @@ def _orset_probes(spec, pre_seen, incoming_seen, pr):
             break
 
 
+LWW_VALUES = ["a", "b", None, 0, "", False, []]     # caller values incl. None and other falsy ones
+FALSY_ELEMS = [None, "", 0, ()]                      # hashable falsy OR-set elements (0/False would be one dict key)
+
+
 def _elem(sc, x):
     if isinstance(x, str):
         return x
     mode = sc.get("elem", "str")
+    if mode == "falsy":
+        return FALSY_ELEMS[int(x) % 4]
+    if mode == "falsy-store":       # CRDTStore Write treats value None as "no argument"
+        return ["", 0, ()][int(x) % 3]
     if mode == "int":
         return int(x)
     if mode == "mixed":
@@ -825,7 +836,7 @@ class ReplicaWorld:
         self.spec = Spec(self.kind)
         self.world = None
         self.probes = {"self_merge": 0, "chain": 0, "merges": 0, "dup": 0, "lww_tie": 0, "conc_add_rm": 0,
-                       "checks": 0, "reload": 0, "update_after_reload": 0, "snap": 0, "restart": 0, "snap_into_live": 0, "snap_catchup_newer": 0, "swap": 0,
+                       "checks": 0, "lww_falsy_write": 0, "reload": 0, "update_after_reload": 0, "snap": 0, "restart": 0, "snap_into_live": 0, "snap_catchup_newer": 0, "swap": 0,
                        "update_skipped_while_recovering": 0, "resync_own": 0, "lww_rewrite": 0, "stale_state_after_remove": 0, "add_wins": 0, "tombstone_round_trip": 0}
         self.vias = set()
         self.msg_seq = 0
@@ -949,7 +960,9 @@ class ReplicaWorld:
             else:
                 hts = self.hlc[node.idx].now()
             oid = sp.new_id()
-            val = str(op["val"]) if self.sc.get("lww_values") == "repeat" and "val" in op else f"v{oid}"
+            val = op["val"] if self.sc.get("lww_values") == "repeat" and "val" in op else f"v{oid}"
+            if val is None or val == "" or (not val and not isinstance(val, str)):
+                self.probes["lww_falsy_write"] += 1
             if c.timestamp is not None and c.value == val and hts > c.timestamp:
                 self.probes["lww_rewrite"] += 1
             if any((o["ts"].physical_ns, o["ts"].logical) == (hts.physical_ns, hts.logical) and o["ts"].node_id != hts.node_id
@@ -1098,6 +1111,8 @@ def run_crdt(sc):
         "probe.dup_delivered": int(pr["dup"] > 0), "probe.lww_tie_physical_logical": int(pr["lww_tie"] > 0),
         "probe.orset_concurrent_add_remove": int(pr["conc_add_rm"] > 0),
         "probe.lww_rewrite_same_value_newer_timestamp": int(pr["lww_rewrite"] > 0),
+        "probe.lww_none_or_falsy_value_written": int(pr["lww_falsy_write"] > 0),
+        "probe.orset_falsy_elements": int(sc["crdt"] == "orset" and sc.get("elem") == "falsy" and pr["merges"] > 0),
         "probe.reload_then_local_update": int(pr["update_after_reload"] > 0),
         "probe.twin_snapshot_caught_up_with_newer_state": int(pr["snap_catchup_newer"] > 0),
         "probe.twin_stale_snapshot_merged_into_live": int(pr["snap_into_live"] > 0),
@@ -1171,7 +1186,10 @@ class LwwDriver(Entity):
         self.sw = sw
 
     def handle_event(self, ev):
-        self.sw.lww_write(ev.context["metadata"]["op"])
+        if ev.event_type == "direct-write":
+            self.sw.direct_write(ev.context["metadata"]["op"])
+        else:
+            self.sw.lww_write(ev.context["metadata"]["op"])
         return None
 
 
@@ -1199,7 +1217,12 @@ class StoreWorld:
         self.hlc = [HybridLogicalClock(f"s{i}", physical_clock=self.nclock[i]) for i in range(n)]
         self.checks = 0
         self.lww_rewrite = 0
+        self.lww_falsy = 0
         self.non_peer_push = 0
+        self.handles = {}            # (store name, key) -> CRDT object kept by the client since its first use
+        self.handle_taken_at = {}    # (store name, key) -> store.stats.keys_merged when the handle was taken
+        self.handle_mode = bool(sc.get("handles"))
+        self.handle_reused_after_merge = 0
 
     def build(self):
         sc = self.sc
@@ -1281,7 +1304,8 @@ class StoreWorld:
                 sig, msg = _diagnose(self.kind, self.cls, c, got, want, self.specs[k], seen, where + ":")
                 foreign = [o.name for o in self.stores if k in o.crdts and o.crdts[k].node_id != o.name]
                 cause = "some-replica-adopted-remote-node-id" if foreign else "all-replicas-own-node-id"
-                sig = sig.replace(f"/{self.cls.__name__}/", f"/CRDTStore.{self.cls.__name__}/") + "/" + cause
+                sig = sig.replace(f"/{self.cls.__name__}/", f"/CRDTStore.{self.cls.__name__}/") + "/" + cause + (
+                    "/written-through-kept-handle" if self.handle_mode else "")
                 raise Violation(sig, f"store {s.name} key {k} {msg}; stores whose replica of {k} carries another "
                                      f"store's node_id: {foreign}")
             for o in self.stores:
@@ -1324,6 +1348,37 @@ class StoreWorld:
             sp.observed[oid] = seen
             s.seen[k] = seen | 1 << sp.add_op({"kind": "remove", "x": op["x"]})
 
+    def handle(self, s, k):
+        """The client's CRDT handle for (store, key): in handle mode the object returned by the FIRST get_or_create()
+        is kept and used for every later write; otherwise get_or_create() is called each time."""
+        if not self.handle_mode:
+            return s.get_or_create(k)
+        h = self.handles.get((s.name, k))
+        if h is None:
+            h = self.handles[(s.name, k)] = s.get_or_create(k)
+            self.handle_taken_at[(s.name, k)] = s.stats.keys_merged
+        elif s.stats.keys_merged > self.handle_taken_at[(s.name, k)]:
+            self.handle_reused_after_merge += 1
+        return h
+
+    def direct_write(self, op):
+        """Counter / OR-set update through the kept handle (instead of a Write event)."""
+        s = self.stores[op["node"]]
+        if getattr(s, "_crashed", False):
+            return
+        h = self.handle(s, op["key"])
+        k = op["kind"]
+        if k == "inc":
+            h.increment(op["n"])
+        elif k == "dec":
+            h.decrement(op["n"])
+        elif k == "add":
+            h.add(op["x"])
+        else:
+            h.remove(op["x"])
+        self._account(s, op)
+        self.check_store(s, "local-op")
+
     def lww_write(self, op):
         i = op["node"]
         s = self.stores[i]
@@ -1332,11 +1387,13 @@ class StoreWorld:
         k = op["key"]
         sp = self.specs[k]
         hts = self.hlc[i].now()
-        val = str(op["val"]) if self.sc.get("lww_values") == "repeat" and "val" in op else f"v{k}.{sp.new_id()}"
+        val = op["val"] if self.sc.get("lww_values") == "repeat" and "val" in op else f"v{k}.{sp.new_id()}"
+        if val is None or val == "" or (not val and not isinstance(val, str)):
+            self.lww_falsy += 1
         cur = s.crdts.get(k)
         if cur is not None and cur.timestamp is not None and cur.value == val and hts > cur.timestamp:
             self.lww_rewrite += 1
-        s.get_or_create(k).set(val, hts)
+        self.handle(s, k).set(val, hts)
         s.seen[k] = s.seen.get(k, 0) | 1 << sp.add_op({"kind": "set", "val": val, "ts": hts})
         self.updated.add(s.name)
         self.check_store(s, "local-op")
@@ -1377,9 +1434,13 @@ def run_store(sc):
                 raise InvalidScenario("n")
             value = op["n"]
         else:
-            hop["x"] = value = int(op.get("x", 0)) if sc.get("elem") == "int" else f"e{op.get('x', 0)}"
+            hop["x"] = value = _elem(sc, int(op.get("x", 0))) if sc.get("elem") in ("int", "falsy-store") \
+                else f"e{op.get('x', 0)}"
         if not isinstance(op.get("t"), (int, float)) or op["t"] < 0:
             raise InvalidScenario("t")
+        if sw.handle_mode:
+            evs.append(_op_event(sw.driver, hop, "direct-write"))
+            continue
         evs.append(Event(time=Instant.from_seconds(float(op["t"])), event_type="Write", target=sw.stores[op["node"]],
                          context={"metadata": {"key": op["key"], "value": value, "operation": opname[k],
                                                "opid": idx, "hop": hop}}))
@@ -1430,6 +1491,8 @@ def run_store(sc):
         "probe.store_asymmetric_peers_settle_converged": int(bool(sc.get("settle")) and sw.asymmetric and converged
                                                              and len(sw.updated) >= 2),
         "probe.store_push_from_non_peer_merged": int(sw.non_peer_push > 0),
+        "probe.store_kept_handle_written_after_gossip_merge": int(sw.handle_reused_after_merge > 0),
+        "probe.lww_none_or_falsy_value_written": int(sw.lww_falsy > 0),
         "probe.store_symmetric_value_tie": int(sc.get("workload") == "symmetric" and len(sw.updated) >= 2),
         "probe.lww_rewrite_same_value_newer_timestamp": int(sw.lww_rewrite > 0),
         "probe.store_orset_stale_state_merged_after_remove": int(sw.pr["stale_state_after_remove"] > 0),
@@ -1439,7 +1502,7 @@ def run_store(sc):
     }
     counters.update(w.fault_counters())
     klass = f"store/{sc['crdt']}/{sc.get('variant', 'default')}/{'precreated' if sc.get('precreate') else 'learned'}" + (
-        f"/settle-{sc.get('workload', 'random')}" if sc.get("settle") else "") + ("/asym" if sw.asymmetric else "") + (
+        f"/settle-{sc.get('workload', 'random')}" if sc.get("settle") else "") + ("/asym" if sw.asymmetric else "") + ("/handles" if sw.handle_mode else "") + (
         "/int" if sc.get("elem") == "int" else "")
     state = repr((klass, sc["n_nodes"], len(sw.keys), converged, any(s.learned for s in sw.stores),
                   w.stats["dups"] > 0, min(sw.merges // 20, 5)))
